@@ -27,3 +27,29 @@ def relerr(a, b):
 
 def fmt(x):
     return float(x) if np.ndim(x) == 0 else np.asarray(x).tolist()
+
+
+def history_walk(r, fam, thetas, methods, X, sig, case, tol=1e-13):
+    """E2 layer for the bivariate families: ONE object re-parameterised through `thetas` forwards and backwards must
+    answer every method in `methods` on X exactly like a fresh object (state leaking between parameterisations)."""
+    from mc.ref.archimedean import Ref
+    order = list(thetas) + list(thetas)[::-1][1:]
+    cop = make_biv(fam, order[0])
+    for step, t in enumerate(order):
+        cop.theta = t
+        cop.tau = float(Ref(fam, t).tau())
+        fresh = make_biv(fam, t)
+        for m in methods:
+            r.tr(2)
+            r.ev(len(X))
+            a = np.asarray(getattr(cop, m)(X.copy()), float)
+            b = np.asarray(getattr(fresh, m)(X.copy()), float)
+            same = (np.abs(a - b) <= tol * np.maximum(1, np.abs(b))) | (~np.isfinite(a) & ~np.isfinite(b))
+            r.state((fam, 'hist', m, step, t))
+            if not same.all():
+                i = int(np.nonzero(~same)[0][0])
+                r.violation(f'{sig}:history-dependence', f'{fam}: an object re-parameterised '
+                            f'{" -> ".join(map(str, order[max(0, step - 2):step + 1]))} answers {m}({X[i].tolist()})='
+                            f'{a[i]!r}, a fresh theta={t} object {b[i]!r}', case=case)
+                return
+    r.hit('history-cases')
